@@ -13,3 +13,4 @@ import Carapace.Props.C17
 import Carapace.Props.C09
 import Carapace.Props.C14
 import Carapace.Props.C15
+import Carapace.Props.C19
